@@ -140,9 +140,14 @@ func runC19(out io.Writer, seed int64, n int) {
 					return
 				}
 				recv := rv.V.Interface().(builder.JsonBuildObjectBuilder)
+				key := []string{"a", "", "k'", "b"}[rng.Intn(4)]
+				if rng.Intn(2) == 0 {
+					// the receiver already carries the key (default value + conditional override)
+					recv = recv.Prop(key, qrb.N("preset"))
+					rv.Prog += fmt.Sprintf(".Prop(%q, N(\"preset\"))", key)
+				}
 				before, _ := sqlArgs(recv)
 				val, _ := g.Gen(reflect.TypeOf((*builder.Exp)(nil)).Elem(), 2, "")
-				key := []string{"a", "", "k'", "b"}[rng.Intn(4)]
 				if i%8 == 2 {
 					fv, ok2 := g.Gen(reflect.TypeOf(func(builder.JsonBuildObjectBuilder) builder.JsonBuildObjectBuilder {
 						return builder.JsonBuildObjectBuilder{}
@@ -184,6 +189,10 @@ func runC19(out io.Writer, seed int64, n int) {
 				recv := rv.V.Interface().(builder.JsonBuildObjectBuilder)
 				v := val.V.Interface().(builder.Exp)
 				key := []string{"a", "", "k'", "b"}[rng.Intn(4)]
+				if rng.Intn(2) == 0 {
+					recv = recv.Prop(key, qrb.N("preset"))
+					rv.Prog += fmt.Sprintf(".Prop(%q, N(\"preset\"))", key)
+				}
 				before, _ := sqlArgs(recv)
 				bb := recv.Start()
 				r := bb.PropIf(cond, key, v)
@@ -221,6 +230,7 @@ func runC19(out io.Writer, seed int64, n int) {
 					without = append(without, x)
 					desc += ev.Prog + ","
 				}
+				snapshot := append([]builder.Exp{}, withNil...)
 				for _, isAnd := range []bool{true, false} {
 					var a, b builder.Exp
 					name := "Or"
@@ -229,7 +239,8 @@ func runC19(out io.Writer, seed int64, n int) {
 					} else {
 						a, b = qrb.Or(withNil...), qrb.Or(without...)
 					}
-					c2 := c19Case{Kind: name + "(nil...)", Desc: name + "(" + desc + ")", Calls: -1, RecvSame: true}
+					// the caller's operand slice is an input, not scratch space
+					c2 := c19Case{Kind: name + "(nil...)", Desc: name + "(" + desc + ")", Calls: -1, RecvSame: reflect.DeepEqual(snapshot, withNil)}
 					c2.Got, c2.GotArgs = sqlArgs(a)
 					c2.Want, c2.WantArgs = sqlArgs(b)
 					c2.Dump, c2.DumpWant = litDumper.Value(a), litDumper.Value(b)
